@@ -27,13 +27,16 @@ THEOREMS = {
     "C04": (["BS.Props.C04"], [("BS.Props.C04", "BS.Props.C04.reopen_preserves"),
                                 ("BS.Props.C04", "BS.Props.C04.repair_is_identity_on_intact"),
                                 ("BS.Props.C04", "BS.Props.C04.last_meta_timestamp_exact"),
-                                ("BS.Props.C04", "BS.Props.C04.window_larger_than_overlap")]),
+                                ("BS.Props.C04", "BS.Props.C04.window_larger_than_overlap"),
+                                ("BS.Props.C04", "BS.Props.C04.api_reopen_preserves"),
+                                ("BS.Props.C04", "BS.Props.C04.read_after_reopen")]),
     "C05": (["BS.Props.C05"], [("BS.Props.C05", "BS.Props.C05.open_recovers_written_prefix"),
                                 ("BS.Props.C05", "BS.Props.C05.repair_yields_written_prefix"),
                                 ("BS.Props.C05", "BS.Props.C05.repair_unconditional_ge4"),
                                 ("BS.Props.C05", "BS.Props.C05.tailClean_needed_counterexample"),
                                 ("BS.Props.C05", "BS.Props.C05.fourth_repair_stage_is_dead"),
-                                ("BS.Props.C05", "BS.Props.C05.rebuilt_index_of_repaired")]),
+                                ("BS.Props.C05", "BS.Props.C05.rebuilt_index_of_repaired"),
+                                ("BS.Props.C05", "BS.Props.C05.api_open_recovers_prefix")]),
     "C06": (["BS.Props.C06"], [("BS.Props.C06", "BS.Props.C06.incremental_index_exact"),
                                 ("BS.Props.C06", "BS.Props.C06.rebuild_equals_incremental"),
                                 ("BS.Props.C06", "BS.Props.C06.prior_index_state_irrelevant"),
@@ -75,6 +78,12 @@ THEOREMS = {
                                 ("BS.Props.C19", "BS.Props.C19.oversized_header_is_error"),
                                 ("BS.Props.C11", "BS.Props.C11.estimate_total"),
                                 ("BS.Props.C04", "BS.Props.C04.last_meta_timestamp_exact")]),
+    "C17": (["BS.Props.C17"], [("BS.Props.C17", "BS.Props.C17.header_and_size_stored_and_enforced"),
+                                ("BS.Props.C17", "BS.Props.C17.reopen_returns_header_and_size"),
+                                ("BS.Props.C17", "BS.Props.C17.wrong_payload_size_is_error"),
+                                ("BS.Props.C17", "BS.Props.C17.open_missing_creates_nothing"),
+                                ("BS.Props.C17", "BS.Props.C17.create_over_existing_untouched"),
+                                ("BS.Props.C17", "BS.Props.C17.oversized_header_creates_nothing")]),
     "C18": (["BS.Props.C18"], [("BS.Props.C18", "BS.Props.C18.no_consent_is_error"),
                                 ("BS.Props.C18", "BS.Props.C18.skipping_drops"),
                                 ("BS.Props.C18", "BS.Props.C18.consent_resumes_at_next_section")]),
@@ -175,8 +184,8 @@ LEVEL_TEXT = {
  "C01": "Kernel-checked for every payload size, every valid history (strictly increasing timestamps < 2^64, arbitrary payload bytes) and every buffer size: the buffered reader with carry-over equals a single pass (T3), scanning what the writer emits feeds the processor exactly the appended entries (T1), push_data keeps the files canonical (T2), and under the session invariant read_all(..) returns exactly the history (read_all_returns_history). The tie to the Rust code is the differential check (sparse/dense series over several 16 KiB buffers for every payload class, marker-like bytes, timestamps up to 2^64-1).",
  "C02": "Kernel-checked at full strength on the model: for EVERY pair of bounds (inclusive/exclusive/unbounded, anywhere relative to the data, in gaps, at delta edges) read_all(range) under the session invariant returns exactly the entries inside the bounds, or an empty result / range error when there are none (range_read_exact, seek_exact with start_side/end_side). Differential: every critical value as one-sided bound of each kind plus random pairs, on histories with gaps and delta edges.",
  "C03": "Kernel-checked on the model: push_line accepts iff the payload has the configured length and the timestamp is strictly newer (or the series is empty); a refusal returns the old directory and no new session; an acceptance re-establishes the session invariant, so the rule persists (accept_iff_strictly_newer). Reopen/repair persistence follows from C04/C05's open theorems at the data level. Differential: refused appends of every kind, several in a row, across reopens, with files/range/len/read_all compared after each.",
- "C04": "Kernel-checked on the model: reopening an intact series with the index file in any legitimate prior state succeeds, leaves the data file byte-identical and re-establishes the data invariant (reopen_preserves); last_meta_timestamp terminates, never panics and is exact for every line size (last_meta_timestamp_exact, window_larger_than_overlap). Hypothesis TailClean (no marker-like raw timestamp line; empty for payload >= 4) is the recorded known finding marker-tail; the header round trip (T10) and the session-level composition are differential only.",
- "C05": "Kernel-checked on the model: data region cut at ANY byte length x index file in ANY legitimate prior state (absent, cut at any byte, lagging, ahead, shorter than its header): Data::open_existing succeeds and yields the canonical files and exact in-memory state of the completely written prefix (open_recovers_written_prefix, repair_yields_written_prefix; unconditional for payload >= 4). For payload < 4 the hypothesis TailClean is needed \u2014 proved necessary by tailClean_needed_counterexample and recorded as known finding marker-tail. Differential: cut-point enumeration x index states incl. stale .part, large files, crash-repair-append chains.",
+ "C04": "Kernel-checked on the model, end to end through the API: create (any payload size, header) -> ANY sequence of append attempts -> close -> builder.open with the index file in any legitimate prior state: succeeds, data file byte-identical, session invariant re-established for exactly the accepted history, so read_all/len/range/last_line and the append rule are those of one uninterrupted session, any number of times (api_reopen_preserves, read_after_reopen, reopen_preserves); last_meta_timestamp terminates, never panics and is exact for every line size (last_meta_timestamp_exact, window_larger_than_overlap). Hypothesis TailClean (no marker-like raw timestamp line; empty for payload >= 4) is the recorded known finding marker-tail. Reopen with caches configured is C09's ground (differential).",
+ "C05": "Kernel-checked on the model, end to end through the API: create -> ANY append attempts -> data file cut at ANY byte x index file in ANY legitimate prior state (absent, cut at any byte, lagging, shorter than its header) -> builder.open succeeds and yields the canonical files and a session whose history is exactly the completely written prefix (api_open_recovers_prefix, open_recovers_written_prefix, repair_yields_written_prefix; unconditional for payload >= 4). For payload < 4 the hypothesis TailClean is needed - proved necessary by tailClean_needed_counterexample and recorded as known finding marker-tail. Differential: cut-point enumeration incl. every header line boundary x index states incl. stale .part, large files, crash-repair-append chains.",
  "C06": "Kernel-checked on the model: the incrementally maintained index (file bytes and entries) is exactly the section list of the data after every accepted append; an index rebuilt from the data is identical to it for every file length and chunk size; no legitimate prior state of the index file influences the result of an open (incremental_index_exact, rebuild_equals_incremental, rebuilt_file_bytes, prior_index_state_irrelevant, chunk_size_irrelevant). Differential incl. the window-sweep battery for the backwards last-timestamp search.",
  "C07": "Kernel-checked: the independent reference decoder of Spec.lean (knows only the documented layout, shares no definition with the model) decodes every canonical data region to exactly what was appended; meta::write is byte-for-byte the documented section layout and meta::read inverts it for all five layouts; the library's reader reads every canonical region (reference_decoder_reads_canonical, section_layout_is_documented, section_roundtrip, reader_reads_canonical). The outer/inner header text (T10) is differential only: every file the library writes is compared byte-for-byte with the Lean spec encoder's file.",
  "C08": "Kernel-checked at full strength on the model, for the harness's integer resampler: create a series with any payload size, header and any cache configuration (distinct bucket sizes 1 <= B <= 2^32), make ANY sequence of append attempts with timestamps < 2^64: no panic, and for EVERY level the cache data file is byte for byte header ++ encode(bucketMeans B history) and its index canonical (caches_exact_in_one_session, via the invariant cacheProcess_inv lifted to all reachable states by pushAll_inv); a cache created over pre-existing data of any length holds exactly the bucket means with the trailing bucket only in the accumulator (cache_created_over_existing_data), and further appends keep it exact (appending_keeps_caches_exact); bucketMeans is characterised entry by entry (bucketMeans_get/_length). Sums are u128/u64 as in the code: no overflow is part of the theorem. The generic ResampleState contract of other resamplers is an assumption.",
@@ -188,7 +197,7 @@ LEVEL_TEXT = {
  "C14": "Kernel-checked on the model for EVERY pair of bounds: n_lines_between is 0 / a range error iff no entry is in range, else k + lines_per_metainfo * m with m <= k sections opened by entries in range (count_consistent, range_bytes).",
  "C15": "Kernel-checked: push_data keeps data file = header ++ encode(history) where encode opens a section for the first line and iff the distance to the last full timestamp exceeds 65534 \u2014 a pure function of header and accepted lines; size formula; after any open the file is again canonical (C04/C05) (push_keeps_canonical, size_formula, section_rule).",
  "C16": "Kernel-checked for the write path: push_data and the cache's process only append to data and index files (pushData_appends, cacheProcess_appends). That reads/counts/accessors never write is true of the model by construction (pure functions) and is carried by the differential file audit: bsrun snapshots every file before and after every call and the change class (same/append/other) is compared with the model's and with the rule.",
- "C17": "Differential only for the create/open contract (header lengths around the 16-bit limit for three payload sizes, binary headers containing the parser's own patterns, every builder option combination, stale sidecar files, directory listing before/after); the header text round trip (T10) is not proved. Supporting kernel-checked facts: none specific. One known finding (stale-cache-create).",
+ "C17": "Kernel-checked on the model: the header round trip for EVERY payload size a usize holds and EVERY user header (any bytes, incl. the parser's own patterns): what creation writes is parsed back to exactly that payload size and header, a different demanded payload size is refused with PayloadSizeChanged (header_and_size_stored_and_enforced = T10); through the whole API model create -> any appends -> close or crash -> builder.open (size demanded or retrieved, header demanded or any) returns the stored header, size and lines (reopen_returns_header_and_size); wrong size: error and the directory untouched; missing series: error, nothing created; create over existing: error, files untouched; oversized header: error, nothing left behind (4 theorems). Modelled, not proved: a demanded header that differs (decided by one comparison in the model), the path/extension handling and the OS create_new semantics - those are differential (header lengths around the 16-bit limit, binary headers, every option combination, directory listing before/after). One known finding (stale-cache-create).",
  "C18": "Kernel-checked on the model of read_with_processor, for every processor and every content around the damage: without consent the read stops with CorruptMetaSection exactly at the damaged section; with consent every line up to the next intact section is dropped without reaching the processor and reading resumes after that section with its timestamp (no_consent_is_error, skipping_drops, consent_resumes_at_next_section). Differential incl. damaged sections longer than one and two read buffers.",
  "C19": "Kernel-checked on the model: in every state satisfying the session invariant for ANY history (empty included; no caches) and for EVERY pair of bounds and EVERY n (0 included) read_all, read_first_n, read_n, n_lines_between, len, last_line return a value or an error, never a panic, and n = 0 returns nothing (queries_never_panic; read_n under <= 2^32 lines per file); creating a series with any admissible configuration and making ANY sequence of append attempts never panics (appends_never_panic, all cache levels included); an oversized header is an error that creates nothing (oversized_header_is_error); estimate_lines and last_meta_timestamp cannot fault or loop (C11, C04). Not covered by a theorem: open of damaged files beyond C05's hypotheses, read_n through caches, header parsing on foreign files - those are differential (extreme-argument cross product, panic hook, watchdog per script). Known finding marker-tail applies."
 }
